@@ -807,12 +807,15 @@ pub fn main(args: &Args) -> Result<()> {
       bail!("searchlite_index_open returned NULL for {root:?}");
     }
     let n_docs = r.gen_range(8..=14);
+    // every other scenario: ids (echoed in every hit) with 2-, 3- and 4-byte characters, so that
+    // truncating capacities fall inside multi-byte sequences of the response
+    let uni = if scn % 2 == 1 { "\u{e9}\u{65e5}\u{1f600}" } else { "" };
     for i in 0..n_docs {
       let doc = if rich {
-        json!({"_id": format!("d{i}"), "body": format!("w{} common x{i}", i % 4),
-               "tag": format!("t{}", i % 3), "num": i})
+        json!({"_id": format!("d{i}{uni}"), "body": format!("w{} common x{i}", i % 4),
+               "tag": format!("t{}{uni}", i % 3), "num": i})
       } else {
-        json!({"_id": format!("d{i}"), "body": format!("w{} common x{i}", i % 4)})
+        json!({"_id": format!("d{i}{uni}"), "body": format!("w{} common x{i}", i % 4)})
       };
       let c = CString::new(doc.to_string())?;
       let st = unsafe { searchlite_add_json(h, c.as_ptr(), c.as_bytes().len()) };
